@@ -15,7 +15,55 @@ type floatDecoder struct {
 	bitSize    int // 32 for float32 destinations: the literal is rounded and range-checked as float32
 }
 
+// validNumberLiteral reports whether s is a number of RFC 8259:
+// [ minus ] int [ frac ] [ exp ]. strconv.ParseFloat accepts more ("01", "1.", "-.5", "0x1p-2").
+func validNumberLiteral(s string) bool {
+	i, n := 0, len(s)
+	digits := func() bool {
+		start := i
+		for i < n && '0' <= s[i] && s[i] <= '9' {
+			i++
+		}
+		return i > start
+	}
+	if i < n && s[i] == '-' {
+		i++
+	}
+	if i >= n {
+		return false
+	}
+	if s[i] == '0' {
+		i++
+	} else if !digits() {
+		return false
+	}
+	if i < n && s[i] == '.' {
+		i++
+		if !digits() {
+			return false
+		}
+	}
+	if i < n && (s[i] == 'e' || s[i] == 'E') {
+		i++
+		if i < n && (s[i] == '+' || s[i] == '-') {
+			i++
+		}
+		if !digits() {
+			return false
+		}
+	}
+	return i == n
+}
+
+// errInvalidNumberLiteral words the error like strconv.ParseFloat, which used to be the only judge.
+func errInvalidNumberLiteral(s string, offset int64) error {
+	return errors.ErrSyntax("strconv.ParseFloat: parsing "+strconv.Quote(s)+": invalid syntax", offset)
+}
+
 func (d *floatDecoder) parse(s string, offset int64) (float64, error) {
+	if !validNumberLiteral(s) {
+		return 0, errInvalidNumberLiteral(s, offset)
+	}
 	bitSize := 64
 	if d.bitSize != 0 {
 		bitSize = d.bitSize
